@@ -36,7 +36,15 @@ def make_curve(rng, integer=False, small=False):
             "tilt": rng.choice([0, 0, 0.05, -0.1, 0.3]), "drift": rng.choice([0, 0, 0.05, -0.08]),
             "lag": int(n_app * rng.choice([0, 0, 0.01, 0.03, 0.05])), "hnoise": rng.choice([0, 0.5, 1.0, 2.0, 3.0]),
             "pidx": rng.randint(0, 40), "bf": rng.uniform(0.35, 0.8), "seed": rng.randrange(1 << 30),
-            "integer": integer, "piezo": rng.random() < 0.4}
+            "integer": integer, "piezo": rng.random() < 0.4,
+            # quantised (staircase) height set-point: runs of equal neighbouring values; instrument segment flag
+            # switching a few samples before / after the deepest point
+            "hquant": 0, "segshift": 0}
+    special = rng.choice(["none", "none", "hquant", "segshift"])
+    if special == "hquant":
+        meta.update(hquant=rng.choice([3, 8]), hnoise=0)
+    elif special == "segshift":
+        meta.update(segshift=rng.choice([6, -6, 15]))
     return build_curve(meta), meta
 
 
@@ -65,7 +73,12 @@ def build_curve(meta):
     step = (zmax + depth) / n_app
     if meta["hnoise"]:
         height = height + g.normal(0, meta["hnoise"] * step, n)
-    seg = np.concatenate([np.zeros(n_app), np.ones(n_ret)])
+    nsw = int(np.clip(n_app + meta.get("segshift", 0), 10, n - 10))
+    seg = np.concatenate([np.zeros(nsw), np.ones(n - nsw)])
+    if meta.get("hquant"):
+        # a noise-free staircase: monotonic within each segment but with equal neighbours
+        qstep = step * meta["hquant"]
+        height = np.round((tip - force / k) / qstep) * qstep
     extra = {}
     if meta["integer"]:
         # integer-valued columns (exact in binary64 and as rationals); k = 1/8
@@ -285,6 +298,10 @@ def explore(ctx, idnt, meta, methods, full):
         for opts in option_sets(optkind, methods, rng, full):
             if step == "smooth_height" and prefix and "height (measured)" not in idnt:
                 continue
+            if step == "smooth_height" and meta.get("segshift"):
+                # the flagged segments are not monotonic themselves (the flag lags the turning point): the
+                # smoothing step presupposes segment discovery here - not part of what is asserted
+                continue
             try:
                 b, a, det = before_after(idnt, prefix, step, opts)
             except BaseException as e:  # noqa
@@ -362,7 +379,11 @@ def tie(ctx, n_curves):
         changed = digest(a["segment"]) != digest(b["segment"]) or True
         expect.append(("split", case, a["segment"], b["segment"]))
         # smoothing of the approach / retract parts of the measured height
-        b, a, _ = before_after(idnt, [], "smooth_height", {})
+        try:
+            b, a, _ = before_after(idnt, [], "smooth_height", {})
+        except ValueError:
+            # max_iter on a flagged segment that is not monotonic (segshift curves): covered by the directed cases
+            continue
         for s in (0, 1):
             d = b["height (measured)"][b["segment"] == s]
             lines.append({"op": "smooth", "w": 15, "maxiter": 1000, "d": ql(d)})
